@@ -967,5 +967,320 @@ Proof.
     eapply reaches_trans; [apply reach_member; [exact Hf|left; split; reflexivity]|].
     replace (fields ++ f :: f' :: fs) with ((fields ++ [f]) ++ f' :: fs) by (rewrite <- app_assoc; reflexivity). exact HR.
 Qed.
+
+(* --- blocks: enum values *)
+Definition value_ls (v : enum_value) (x : Z) : list mline :=
+  comment_ls (st_indent st) (ev_comment v) w ++ [ml (MStmt (r_value T st v)) x].
+
+Lemma wf_value_comment v : wf_value T v = true -> wf_comment T (ev_comment v) = true.
+Proof. unfold wf_value. intro H. apply andb_true_iff in H as [_ H]. exact H. Qed.
+
+Lemma tgroup_value v r : wf_value T v = true -> tgroup cr (value_tlines T st v ++ r) = value_ls v (tpeek r) ++ tgroup cr r.
+Proof.
+  intro Hv. unfold value_tlines, value_ls. rewrite <- !app_assoc. rewrite tgroup_comment_opt; [|reflexivity|apply wf_comment_clines, wf_value_comment, Hv].
+  cbn [app tgroup tpeek]. rewrite tpeek_blanks, tgroup_blanks. unfold comment_ls. destruct (ev_comment v); reflexivity.
+Qed.
+Lemma tpeek_value v r : tpeek (value_tlines T st v ++ r) = w.
+Proof. unfold value_tlines. rewrite <- !app_assoc. unfold comment_tlines. destruct (clines (ev_comment v)); reflexivity. Qed.
+
+Lemma reach_comment_ls_enum acc h vals c : wf_comment T c = true ->
+  reaches (SBodyE acc h vals None, [w; 0]) (comment_ls (st_indent st) c w) (SBodyE acc h vals c, [w; 0]).
+Proof. destruct c as [c|]; intro H; [apply reach_comment_enum; exact H|apply reaches_nil]. Qed.
+
+Lemma value_eta v : {| ev_name := ev_name v; ev_value := ev_value v; ev_comment := ev_comment v |} = v.
+Proof. destruct v; reflexivity. Qed.
+
+Lemma values_run acc h vs : vs <> [] -> forallb (wf_value T) vs = true -> forall vals r, tpeek r = 0 ->
+  exists LS, tgroup cr (flat_map (value_tlines T st) vs ++ r) = LS ++ tgroup cr r
+    /\ reaches (SBodyE acc h vals None, [w; 0]) LS (STop (acc ++ [IDecl (mk_enum h (vals ++ vs))]) None PaNone, [0]).
+Proof.
+  induction vs as [|v vs IH]; intros Hne Hwf vals r Hr; [contradiction|].
+  cbn [forallb] in Hwf. apply andb_true_iff in Hwf as [Hv Hvs]. cbn [flat_map]. rewrite <- app_assoc.
+  rewrite (tgroup_value v _ Hv). destruct vs as [|v' vs].
+  - cbn [flat_map app]. rewrite Hr. exists (value_ls v 0). split; [reflexivity|]. unfold value_ls.
+    eapply reaches_trans; [apply reach_comment_ls_enum, wf_value_comment, Hv|].
+    replace (vals ++ [v]) with (vals ++ [{| ev_name := ev_name v; ev_value := ev_value v; ev_comment := ev_comment v |}]) by (rewrite value_eta; reflexivity).
+    apply reach_value_last. exact Hv.
+  - destruct (IH ltac:(discriminate) Hvs (vals ++ [v]) r Hr) as [LS [E HR]].
+    change (flat_map (value_tlines T st) (v' :: vs)) with (value_tlines T st v' ++ flat_map (value_tlines T st) vs) at 1.
+    rewrite <- app_assoc, tpeek_value. rewrite E. exists (value_ls v w ++ LS). split; [rewrite <- app_assoc; reflexivity|].
+    eapply reaches_trans.
+    + unfold value_ls. eapply reaches_trans; [apply reach_comment_ls_enum, wf_value_comment, Hv|]. apply reach_value_more. exact Hv.
+    + rewrite value_eta. replace (vals ++ v :: v' :: vs) with ((vals ++ [v]) ++ v' :: vs) by (rewrite <- app_assoc; reflexivity). exact HR.
+Qed.
+
+(* --- top-level items *)
+Lemma tgroup_stmts_top texts rest : tpeek rest = 0 ->
+  tgroup cr (map (PStmt []) texts ++ rest) = map (fun t => ml (MStmt t) 0) texts ++ tgroup cr rest.
+Proof. intro H. apply (tgroup_stmts_w [] texts rest). exact H. Qed.
+
+Lemma reach_comment_ls_top acc pc c : wf_comment T c = true ->
+  reaches (STop acc pc PaNone, [0]) (comment_ls [] c 0)
+          (STop (acc ++ match c with Some _ => opt_comment pc | None => [] end) (match c with Some _ => c | None => pc end) PaNone, [0]).
+Proof.
+  destruct c as [c|]; intro H; [apply reach_comment_top; exact H|]. rewrite app_nil_r. apply reaches_nil.
+Qed.
+
+Lemma tpeek_top_stmts texts x rest : tpeek (map (PStmt []) texts ++ PStmt [] x :: rest) = 0.
+Proof. destruct texts; reflexivity. Qed.
+
+Definition decl_result (acc : list item) (pc : option string) (d : decl) : list item :=
+  acc ++ match decl_comment d with Some _ => opt_comment pc | None => [] end ++ [IDecl d].
+
+Lemma decl_run acc pc d : wf_decl T d = true -> (decl_comment d = None -> pc = None) -> forall r, tpeek r = 0 ->
+  exists LS, tgroup cr (decl_tlines T st d ++ r) = LS ++ tgroup cr r
+    /\ reaches (STop acc pc PaNone, [0]) LS (STop (decl_result acc pc d) None PaNone, [0]).
+Proof.
+  intros Hwf Hpc r Hr. unfold decl_result. destruct d as [n l c|n b vals attrs c|s]; cbn [wf_decl decl_tlines decl_comment] in *.
+  - (* alias *)
+    apply andb_true_iff in Hwf as [H Hl]. apply andb_true_iff in H as [Hn Hc].
+    rewrite <- app_assoc, tgroup_comment_opt; [|reflexivity|apply wf_comment_clines; exact Hc].
+    exists (comment_ls [] c 0 ++ [ml (MStmt (r_alias T st n l)) 0]). split.
+    + cbn [app tgroup tpeek]. rewrite Hr. unfold comment_ls. destruct c; reflexivity.
+    + eapply reaches_trans; [apply reach_comment_ls_top; exact Hc|]. rewrite app_assoc.
+      destruct c as [c|]; [apply reach_alias; assumption|]. rewrite (Hpc eq_refl), app_nil_r. apply reach_alias; assumption.
+  - (* enum *)
+    apply andb_true_iff in Hwf as [H Hc]. apply andb_true_iff in H as [H Ha]. apply andb_true_iff in H as [H Hv]. apply andb_true_iff in H as [Hn Hb].
+    rewrite <- !app_assoc, tgroup_comment_opt; [| |apply wf_comment_clines; exact Hc].
+    2:{ rewrite r_attrs_list. destruct (attrs_list attrs); reflexivity. }
+    rewrite tgroup_stmts_top by reflexivity. rewrite r_attrs_list, (map_map (r_attr T st CEnum) (fun t => ml (MStmt t) 0)).
+    assert (Hstate : reaches (STop acc pc PaNone, [0])
+              (comment_ls [] c 0 ++ map (fun a => ml (MStmt (r_attr T st CEnum a)) 0) (attrs_list attrs))
+              (STop (acc ++ match c with Some _ => opt_comment pc | None => [] end) c (pa_of CEnum (attrs_list attrs)), [0])).
+    { eapply reaches_trans; [apply reach_comment_ls_top; exact Hc|].
+      replace (match c with Some _ => c | None => pc end) with c by (destruct c; [reflexivity|rewrite (Hpc eq_refl); reflexivity]).
+      apply (reach_attrs _ c CEnum (attrs_list attrs) ltac:(discriminate) (wf_attrs_list CEnum attrs Ha) []). }
+    assert (Hpeek0 : tpeek (map (PStmt []) (map (r_attr T st CEnum) (attrs_list attrs)) ++ [PStmt [] (r_enum_header T n b)] ++ flat_map (value_tlines T st) vals ++ r) = 0).
+    { destruct (attrs_list attrs); reflexivity. }
+    destruct vals as [|v vals].
+    + cbn [flat_map app tgroup tpeek]. rewrite Hr.
+      exists ((comment_ls [] c 0 ++ map (fun a => ml (MStmt (r_attr T st CEnum a)) 0) (attrs_list attrs)) ++ [ml (MStmt (r_enum_header T n b)) 0]).
+      split.
+      * rewrite <- !app_assoc. unfold comment_ls. destruct c; cbn [app]; rewrite ?tpeek_top_stmts; reflexivity.
+      * eapply reaches_trans; [exact Hstate|]. rewrite <- (pa_list_of CEnum attrs ltac:(discriminate) Ha) at 2. rewrite app_assoc.
+        apply reach_enum_empty; assumption.
+    + destruct (values_run (acc ++ match c with Some _ => opt_comment pc | None => [] end)
+                  {| eh_name := n; eh_base := b; eh_attrs := pa_list (pa_of CEnum (attrs_list attrs)); eh_comment := c |}
+                  (v :: vals) ltac:(discriminate) Hv [] r Hr) as [LS [E HR]].
+      cbn [app tgroup]. rewrite E.
+      assert (Hpw : tpeek (flat_map (value_tlines T st) (v :: vals) ++ r) = w) by (cbn [flat_map]; rewrite <- app_assoc; apply tpeek_value).
+      rewrite Hpw.
+      exists ((comment_ls [] c 0 ++ map (fun a => ml (MStmt (r_attr T st CEnum a)) 0) (attrs_list attrs)) ++ [ml (MStmt (r_enum_header T n b)) w] ++ LS).
+      split.
+      * rewrite <- !app_assoc. unfold comment_ls. destruct c; cbn [app]; rewrite ?tpeek_top_stmts; reflexivity.
+      * eapply reaches_trans; [exact Hstate|]. eapply reaches_trans; [apply reach_enum_open; assumption|].
+        assert (Heq : mk_enum {| eh_name := n; eh_base := b; eh_attrs := pa_list (pa_of CEnum (attrs_list attrs)); eh_comment := c |} ([] ++ v :: vals)
+                      = DEnum n b (v :: vals) attrs c).
+        { unfold mk_enum. cbn [app eh_name eh_base eh_attrs eh_comment]. rewrite (pa_list_of CEnum attrs ltac:(discriminate) Ha). reflexivity. }
+        rewrite Heq in HR. rewrite app_assoc. exact HR.
+  - (* struct *)
+    apply andb_true_iff in Hwf as [H Hfac]. apply andb_true_iff in H as [H Hf]. apply andb_true_iff in H as [H Ha]. apply andb_true_iff in H as [Hn Hc].
+    rewrite <- !app_assoc, tgroup_comment_opt; [| |apply wf_comment_clines; exact Hc].
+    2:{ rewrite r_attrs_list. destruct (attrs_list (s_attrs s)); reflexivity. }
+    rewrite tgroup_stmts_top by reflexivity. rewrite r_attrs_list, (map_map (r_attr T st CStruct) (fun t => ml (MStmt t) 0)).
+    assert (Hstate : reaches (STop acc pc PaNone, [0])
+              (comment_ls [] (s_comment s) 0 ++ map (fun a => ml (MStmt (r_attr T st CStruct a)) 0) (attrs_list (s_attrs s)))
+              (STop (acc ++ match s_comment s with Some _ => opt_comment pc | None => [] end) (s_comment s) (pa_of CStruct (attrs_list (s_attrs s))), [0])).
+    { eapply reaches_trans; [apply reach_comment_ls_top; exact Hc|].
+      replace (match s_comment s with Some _ => s_comment s | None => pc end) with (s_comment s)
+        by (destruct (s_comment s); [reflexivity|rewrite (Hpc eq_refl); reflexivity]).
+      apply (reach_attrs _ (s_comment s) CStruct (attrs_list (s_attrs s)) ltac:(discriminate) (wf_attrs_list CStruct _ Ha) []). }
+    assert (Hpeek0 : tpeek (map (PStmt []) (map (r_attr T st CStruct) (attrs_list (s_attrs s))) ++ [PStmt [] (r_struct_header T (s_disp s) (s_name s))]
+                            ++ flat_map (member_tlines T st) (s_fields s) ++ r) = 0).
+    { destruct (attrs_list (s_attrs s)); reflexivity. }
+    assert (Hfs : s_fields s <> [] /\ forallb (wf_field T) (s_fields s) = true) by (destruct (s_fields s); [discriminate|split; [discriminate|exact Hf]]).
+    destruct Hfs as [Hne Hfs].
+    destruct (members_run (acc ++ match s_comment s with Some _ => opt_comment pc | None => [] end)
+                {| h_name := s_name s; h_disp := s_disp s; h_attrs := pa_list (pa_of CStruct (attrs_list (s_attrs s))); h_comment := s_comment s |}
+                (s_fields s) Hne Hfs [] r Hr) as [LS [E HR]].
+    cbn [app tgroup]. rewrite E.
+    assert (Hpw : tpeek (flat_map (member_tlines T st) (s_fields s) ++ r) = w).
+    { destruct (s_fields s) as [|f fs]; [contradiction|]. cbn [flat_map]. rewrite <- app_assoc. apply tpeek_member. }
+    rewrite Hpw.
+    exists ((comment_ls [] (s_comment s) 0 ++ map (fun a => ml (MStmt (r_attr T st CStruct a)) 0) (attrs_list (s_attrs s)))
+            ++ [ml (MStmt (r_struct_header T (s_disp s) (s_name s))) w] ++ LS).
+    split.
+    + rewrite <- !app_assoc. unfold comment_ls. destruct (s_comment s); cbn [app]; rewrite ?tpeek_top_stmts; reflexivity.
+    + eapply reaches_trans; [exact Hstate|]. eapply reaches_trans; [apply reach_struct_open; assumption|].
+      assert (Heq : mk_struct {| h_name := s_name s; h_disp := s_disp s; h_attrs := pa_list (pa_of CStruct (attrs_list (s_attrs s))); h_comment := s_comment s |}
+                              ([] ++ s_fields s) = DStruct s).
+      { unfold mk_struct. cbn [app h_name h_disp h_attrs h_comment]. rewrite (pa_list_of CStruct _ ltac:(discriminate) Ha).
+        destruct s as [sn sd sf sft sa sc su]. cbn [s_name s_disp s_fields s_factory_type s_attrs s_comment s_requires_unaligned] in *.
+        destruct sft; [discriminate|]. apply negb_true_iff in Hfac. subst. reflexivity. }
+      rewrite Heq in HR. rewrite app_assoc. exact HR.
+Qed.
+
+Definition item_result (acc : list item) (pc : option string) (it : item) : list item * option string :=
+  match it with
+  | IDecl d => (decl_result acc pc d, None)
+  | IImport p => (acc ++ opt_comment pc ++ [IImport p], None)
+  | IComment c => (acc ++ opt_comment pc, Some c)
+  end.
+Definition item_pre (pc : option string) (it : item) : Prop :=
+  match it with IDecl d => decl_comment d = None -> pc = None | _ => True end.
+
+Lemma item_run acc pc it : wf_item T it = true -> item_pre pc it -> forall r, tpeek r = 0 ->
+  exists LS, tgroup cr (item_tlines T st it ++ r) = LS ++ tgroup cr r
+    /\ reaches (STop acc pc PaNone, [0]) LS (STop (fst (item_result acc pc it)) (snd (item_result acc pc it)) PaNone, [0]).
+Proof.
+  intros Hwf Hpre r Hr. unfold item_tlines. rewrite <- app_assoc.
+  assert (Hr' : tpeek (blanks (st_blank_top st) ++ r) = 0) by (rewrite tpeek_blanks; exact Hr).
+  destruct it as [d|p|c]; cbn [wf_item item_pre item_result fst snd] in *.
+  - destruct (decl_run acc pc d Hwf Hpre _ Hr') as [LS [E HR]]. exists LS. rewrite E, tgroup_blanks. split; [reflexivity|exact HR].
+  - exists [ml (MStmt (r_import T p)) 0]. cbn [app tgroup]. rewrite Hr', tgroup_blanks. split; [reflexivity|]. apply reach_import. exact Hwf.
+  - rewrite <- app_assoc. rewrite tgroup_comment_opt; [|reflexivity|intros _; apply (wf_comment_clines (Some c) Hwf); discriminate].
+    exists [ml (MComment (cblock cr [] (clines (Some c)))) 0]. cbn [app tgroup tpeek]. rewrite Hr', tgroup_blanks. split; [reflexivity|].
+    apply reach_comment_top. exact Hwf.
+Qed.
+
+Lemma doc_run ds : forallb (wf_item T) ds = true -> wf_adjacent ds = true -> forall acc pc,
+  match ds with it :: _ => item_pre pc it | [] => True end ->
+  exists LS acc2 pc2, tgroup cr (tlines T st ds) = LS /\ reaches (STop acc pc PaNone, [0]) LS (STop acc2 pc2 PaNone, [0])
+    /\ acc2 ++ opt_comment pc2 = acc ++ opt_comment pc ++ ds.
+Proof.
+  induction ds as [|it ds IH]; intros Hwf Hadj acc pc Hpre.
+  - exists [], acc, pc. split; [reflexivity|]. split; [apply reaches_nil|]. rewrite app_nil_r. reflexivity.
+  - cbn [forallb] in Hwf. apply andb_true_iff in Hwf as [Hit Hds].
+    assert (Hadj' : wf_adjacent ds = true).
+    { destruct it as [d|p|c]; cbn [wf_adjacent] in Hadj; try exact Hadj. destruct ds as [|[d'|p'|c'] ds']; try exact Hadj.
+      apply andb_true_iff in Hadj as [_ H]. exact H. }
+    assert (Hpeek : tpeek (tlines T st ds) = 0).
+    { clear. induction ds as [|x ds IHd]; [reflexivity|]. unfold tlines. cbn [flat_map]. fold (tlines T st ds).
+      unfold item_tlines. rewrite <- app_assoc.
+      assert (Hb : tpeek (blanks (st_blank_top st) ++ tlines T st ds) = 0) by (rewrite tpeek_blanks; exact IHd).
+      destruct x as [d|p|c].
+      - destruct d as [n l c|n b vals attrs c|s]; cbn [decl_tlines]; rewrite <- ?app_assoc; unfold comment_tlines;
+          (destruct (clines _); [|reflexivity]); cbn [map app]; try reflexivity; rewrite r_attrs_list;
+          (destruct (attrs_list _); reflexivity).
+      - reflexivity.
+      - rewrite <- app_assoc. unfold comment_tlines. destruct (clines (Some c)); [|reflexivity]. cbn [map app tpeek]. exact Hb. }
+    destruct (item_run acc pc it Hit Hpre (tlines T st ds) Hpeek) as [LS1 [E1 HR1]].
+    specialize (IH Hds Hadj' (fst (item_result acc pc it)) (snd (item_result acc pc it))).
+    assert (Hpre' : match ds with it' :: _ => item_pre (snd (item_result acc pc it)) it' | [] => True end).
+    { destruct ds as [|it' ds']; [exact I|]. destruct it' as [d'|p'|c']; cbn [item_pre]; try exact I.
+      destruct it as [d|p|c]; cbn [item_result snd]; try reflexivity.
+      cbn [wf_adjacent] in Hadj. apply andb_true_iff in Hadj as [H _]. intro Hn. rewrite Hn in H. discriminate. }
+    destruct (IH Hpre') as [LS2 [acc2 [pc2 [E2 [HR2 Hres]]]]].
+    exists (LS1 ++ LS2), acc2, pc2. split; [|split].
+    + unfold tlines. cbn [flat_map]. fold (tlines T st ds). rewrite E1, E2. reflexivity.
+    + eapply reaches_trans; eassumption.
+    + rewrite Hres. destruct it as [d|p|c]; cbn [item_result fst snd]; unfold decl_result.
+      * cbn [item_pre] in Hpre. destruct (decl_comment d) eqn:Ed.
+        -- cbn [opt_comment]. rewrite <- !app_assoc. reflexivity.
+        -- rewrite (Hpre eq_refl). cbn [opt_comment app]. rewrite <- ?app_assoc. reflexivity.
+      * cbn [opt_comment]. rewrite <- !app_assoc. reflexivity.
+      * cbn [opt_comment]. rewrite <- !app_assoc. reflexivity.
+Qed.
 End Runs.
+
+(* --- positions do not matter for the automaton *)
+Lemma add_comment_map ln col p ls : map l_m (add_comment_pos ln col p ls) = add_comment_line p (map l_m ls).
+Proof.
+  destruct ls as [|L ls]; [reflexivity|]. cbn [add_comment_pos map l_m]. destruct (l_m L) as [[lines|core] n]; reflexivity.
+Qed.
+
+Lemma group_mgroup ps : forall ln tail, map l_m (group T ln ps tail) = mgroup T ps tail.
+Proof.
+  induction ps as [|p ps IH]; intros ln tail.
+  - cbn [group mgroup]. destruct (classify_tail tail) as [ws [| |core]]; try reflexivity; cbn [mgroup]; rewrite map_map; cbn [l_m]; rewrite map_id; reflexivity.
+  - cbn [group mgroup]. destruct (classify p) as [ws [| |core]].
+    + apply IH.
+    + destruct (peek_comment ps tail).
+      * rewrite add_comment_map, IH. reflexivity.
+      * cbn [map l_m]. rewrite IH. reflexivity.
+    + cbn [map l_m]. rewrite IH. reflexivity.
+Qed.
+
+Lemma pline_nolf p : pline_ok p = true -> nolf (untag p) = true.
+Proof.
+  destruct p as [|ind t|ind c]; cbn [pline_ok untag]; intro H; [reflexivity| |].
+  - apply andb_true_iff in H as [H Ht]. apply andb_true_iff in H as [Hi _]. rewrite nolf_app, Ht, andb_true_r.
+    apply forallb_forall. intros x Hx. unfold ws_only in Hi. rewrite forallb_forall in Hi. specialize (Hi x Hx). unfold is_ws in Hi. lia.
+  - apply andb_true_iff in H as [H Hc]. apply andb_true_iff in H as [Hi _]. rewrite nolf_app, (plainc_nolf c Hc), andb_true_r.
+    apply forallb_forall. intros x Hx. unfold ws_only in Hi. rewrite forallb_forall in Hi. specialize (Hi x Hx). unfold is_ws in Hi. lia.
+Qed.
+
+Lemma first_line_not_blank st ds : wf_doc_with T ds = true ->
+  exists p tl, tlines T st ds = p :: tl /\ p <> PBlank.
+Proof.
+  unfold wf_doc_with. destruct ds as [|it ds]; [discriminate|]. intro H. apply andb_true_iff in H as [H _].
+  cbn [forallb] in H. apply andb_true_iff in H as [Hit _]. unfold tlines. cbn [flat_map]. unfold item_tlines.
+  assert (Hc : forall ind c rest, wf_comment T c = true -> rest <> [] -> (forall q l, rest = q :: l -> q <> PBlank) ->
+            exists p tl, comment_tlines ind c ++ rest = p :: tl /\ p <> PBlank).
+  { intros ind c rest Hwf Hne Hrest. unfold comment_tlines. destruct (clines c) as [|t ts].
+    - destruct rest as [|q l]; [contradiction|]. exists q, l. split; [reflexivity|]. eapply Hrest. reflexivity.
+    - exists (PComment ind t). eexists. split; [reflexivity|discriminate]. }
+  destruct it as [d|p|c]; cbn [wf_item] in Hit.
+  - destruct d as [n l c|n b vals attrs c|s]; cbn [wf_decl decl_tlines] in *.
+    + apply andb_true_iff in Hit as [Hit _]. apply andb_true_iff in Hit as [_ Hcm].
+      rewrite <- !app_assoc. destruct (Hc [] c ([PStmt [] (r_alias T st n l)] ++ blanks (st_blank_top st) ++ flat_map (item_tlines T st) ds) Hcm) as [p [tl [E Hp]]];
+        [discriminate|intros q l0 Hq; inversion Hq; discriminate|]. exists p, tl. split; [rewrite <- E; reflexivity|exact Hp].
+    + apply andb_true_iff in Hit as [Hit Hcm]. rewrite <- !app_assoc.
+      destruct (Hc [] c (map (PStmt []) (r_attrs T st CEnum attrs) ++ [PStmt [] (r_enum_header T n b)] ++ flat_map (value_tlines T st) vals
+                         ++ blanks (st_blank_top st) ++ flat_map (item_tlines T st) ds) Hcm) as [p [tl [E Hp]]].
+      * destruct (r_attrs T st CEnum attrs); discriminate.
+      * intros q l0 Hq. destruct (r_attrs T st CEnum attrs); inversion Hq; discriminate.
+      * exists p, tl. split; [rewrite <- E; reflexivity|exact Hp].
+    + apply andb_true_iff in Hit as [Hit _]. apply andb_true_iff in Hit as [Hit _]. apply andb_true_iff in Hit as [Hit _]. apply andb_true_iff in Hit as [_ Hcm].
+      rewrite <- !app_assoc.
+      destruct (Hc [] (s_comment s) (map (PStmt []) (r_attrs T st CStruct (s_attrs s)) ++ [PStmt [] (r_struct_header T (s_disp s) (s_name s))]
+                         ++ flat_map (member_tlines T st) (s_fields s) ++ blanks (st_blank_top st) ++ flat_map (item_tlines T st) ds) Hcm) as [p [tl [E Hp]]].
+      * destruct (r_attrs T st CStruct (s_attrs s)); discriminate.
+      * intros q l0 Hq. destruct (r_attrs T st CStruct (s_attrs s)); inversion Hq; discriminate.
+      * exists p, tl. split; [rewrite <- E; reflexivity|exact Hp].
+  - eexists. eexists. split; [reflexivity|discriminate].
+  - unfold comment_tlines. pose proof (wf_comment_clines (Some c) Hit ltac:(discriminate)) as Hne.
+    destruct (clines (Some c)) as [|t ts]; [contradiction|]. eexists. eexists. split; [reflexivity|discriminate].
+Qed.
+
+(* ------------------------------------------------------------------------------------------------------------------ *)
+(* C04: printing a well-formed descriptor list in any style and parsing it again gives the list back *)
+
+Definition style_cr (st : style) : list Z := if st_crlf st then [13] else [].
+
+Lemma render_lines st ds : render_with T st ds = flat_map (fun l => l ++ style_cr st ++ [10]) (plines T st ds).
+Proof. unfold render_with, eol, style_cr. destruct (st_crlf st); reflexivity. Qed.
+
+Lemma parse_machine st ds : wf_style st = true -> wf_doc_with T ds = true ->
+  parse_with T (render_with T st ds) =
+  match machine T (STop [] None PaNone) [0] false 0 (tgroup (style_cr st) (tlines T st ds)) with
+  | MOk v => Ok v
+  | MErr i d => Error (pos_of (group T 1 (phys (style_cr st) (tlines T st ds)) []) i d)
+  end.
+Proof.
+  intros Hst Hwf. assert (Hitems : forallb (wf_item T) ds = true).
+  { unfold wf_doc_with in Hwf. destruct ds; [discriminate|]. apply andb_true_iff in Hwf as [H _]. exact H. }
+  pose proof (tlines_ok st ds Hst Hitems) as Hok_lines.
+  assert (Hcr : cr_shape (style_cr st)) by (unfold style_cr, cr_shape; destruct (st_crlf st); auto).
+  unfold parse_with. rewrite render_lines.
+  pose proof (split_lines (plines T st ds) (style_cr st)) as Hsplit. cbn zeta in Hsplit.
+  destruct (split_lf (flat_map (fun l => l ++ style_cr st ++ [10]) (plines T st ds))) as [p ps].
+  rewrite Hsplit.
+  2:{ unfold plines. apply forallb_forall. intros l Hl. apply in_map_iff in Hl as [q [<- Hq]]. apply pline_nolf.
+      rewrite forallb_forall in Hok_lines. apply Hok_lines. exact Hq. }
+  2:{ unfold style_cr. destruct (st_crlf st); reflexivity. }
+  unfold plines. rewrite map_map. fold (phys (style_cr st) (tlines T st ds)).
+  destruct (first_line_not_blank st ds Hwf) as [q [tl [E Hq]]].
+  assert (Hgm : map (l_m) (group T 1 (phys (style_cr st) (tlines T st ds)) []) = tgroup (style_cr st) (tlines T st ds)).
+  { rewrite group_mgroup. apply mgroup_tagged; assumption. }
+  rewrite E in *. cbn [phys map].
+  assert (Hnb : is_blank_piece (untag q ++ style_cr st) = false).
+  { unfold is_blank_piece. cbn [forallb] in Hok_lines. apply andb_true_iff in Hok_lines as [Hq' _].
+    rewrite (classify_tagged (style_cr st) q Hcr Hq'). destruct q; [contradiction|reflexivity|reflexivity]. }
+  rewrite Hnb. cbn [phys map] in Hgm. rewrite Hgm. reflexivity.
+Qed.
+
+Theorem parse_render_with st ds :
+  comment_merged T = false -> (st_crlf st = true -> in_set (comment_strip T) 13 = true) ->
+  wf_style st = true -> wf_doc_with T ds = true -> parse_with T (render_with T st ds) = Ok ds.
+Proof.
+  intros Hmerged Hcrlf Hst Hwf. rewrite (parse_machine st ds Hst Hwf).
+  assert (Hcr : cr_ok (style_cr st)).
+  { unfold cr_ok, style_cr. destruct (st_crlf st); [right; split; [reflexivity|apply Hcrlf; reflexivity]|left; reflexivity]. }
+  unfold wf_doc_with in Hwf. destruct ds as [|it ds]; [discriminate|]. apply andb_true_iff in Hwf as [Hitems Hadj].
+  destruct (doc_run Hmerged st Hst (style_cr st) Hcr (it :: ds) Hitems Hadj [] None) as [LS [acc2 [pc2 [E [HR Hres]]]]].
+  { destruct it; cbn [item_pre]; auto. }
+  rewrite E. destruct (HR [] false 0%nat) as [ac' [j Hm]]. rewrite app_nil_r in Hm. cbn [fst snd] in Hm. rewrite Hm.
+  cbn [machine eof_dedents]. cbn [app opt_comment] in Hres. rewrite Hres. reflexivity.
+Qed.
 End Proofs2.
